@@ -281,6 +281,14 @@ def c10(tier, seed, wd, replay=None):
         if err or not ok:
             run.violation(f"after-failed-dumps|{err or 'CopyDiffers'}", f"dumps() of a 4-cycle right after a dumps() that raised (protocol {proto}): {err or 'copy differs'}",
                           {"kind": "pickle-after-failure", "protocol": proto})
+    # attribute values of 64 KiB and more (pickle writes those past the pickler's write hook)
+    for proto in (1, 3, 4, 5):
+        loader = ("pickle", "dill")[proto % 2]
+        err, ok = PX.large_value_case(proto, loader)
+        run.count_class(f"large-values:proto{proto},{loader}")
+        if err or not ok:
+            run.violation(f"large-values|{err or 'CopyDiffers'}", f"round trip of a graph carrying 64 KiB+ str / bytes / bytearray attribute values (protocol {proto}, {loader}): {err or 'copy differs'}",
+                          {"kind": "pickle-large", "protocol": proto, "loader": loader})
     # objects nobody looked at before the dump
     for proto in (0, 2, 4, 5):
         loader = ("pickle", "dill")[(proto // 2) % 2]
@@ -338,6 +346,9 @@ def replay_file(path, wd):
         rec = {"id": 1, "pre": pre, "c": rp["call"], "res": r, "post": w3.project()}
         print(json.dumps(rec)[:1500])
         bad = any("fail" in v for v in ST.judge("C03", consts, [rec], wd, "replay", shards=1))
+    elif kind == "pickle-large":
+        err, ok = PX.large_value_case(rp["protocol"], rp["loader"])
+        bad = bool(err or not ok)
     elif kind == "pickle-untouched":
         err, ok = PX.untouched_case(rp["protocol"], rp["loader"])
         bad = bool(err or not ok)
